@@ -24,6 +24,7 @@ import (
 	"math/big"
 	"sort"
 	"strings"
+	"time"
 
 	"github.com/btcsuite/btcd/btcec/v2"
 	"gitlab.com/aquachain/aquachain/aqua/accounts"
@@ -32,6 +33,7 @@ import (
 	"gitlab.com/aquachain/aquachain/common/log"
 	"gitlab.com/aquachain/aquachain/consensus"
 	"gitlab.com/aquachain/aquachain/consensus/aquahash"
+	"gitlab.com/aquachain/aquachain/consensus/misc"
 	"gitlab.com/aquachain/aquachain/core"
 	"gitlab.com/aquachain/aquachain/core/state"
 	"gitlab.com/aquachain/aquachain/core/types"
@@ -136,6 +138,9 @@ func genesisSpec(cfg *params.ChainConfig) *core.Genesis {
 		alloc[a] = core.GenesisAccount{Code: sdCode, Balance: big.NewInt(int64(1000 * (i + 1)))}
 	}
 	alloc[emptyAddr] = core.GenesisAccount{Balance: big.NewInt(0)}
+	// two accounts of the hard-fork-4 list: their balance is zeroed at the fork block by Process and by both builders
+	alloc[common.HexToAddress(misc.DeallocListHF4[0])] = core.GenesisAccount{Balance: big.NewInt(123456789)}
+	alloc[common.HexToAddress(misc.DeallocListHF4[3])] = core.GenesisAccount{Balance: big.NewInt(1)}
 	return &core.Genesis{Config: cfg, Alloc: alloc, GasLimit: 8000000, Difficulty: big.NewInt(131072)}
 }
 
@@ -578,7 +583,9 @@ func histories() []history {
 		}},
 		{"warm-cache+siblings+fork-interleaved/pruning-default", nil, false, func(c *vh.Ctx, n *node, ch *chainT) error {
 			for i, b := range ch.blocks {
-				if c.Rng.Bool() {
+				// (not at the tip: two blocks of equal total difficulty at the tip are a coin flip of
+				// the fork choice, property C02, not a question of import)
+				if c.Rng.Bool() && i < len(ch.blocks)-1 {
 					if err := n.insert([]*types.Block{ch.side[i]}); err != nil {
 						return fmt.Errorf("sibling %d: %v", i+1, err)
 					}
@@ -689,11 +696,14 @@ func processOracle(n *node, b *types.Block, parentRoot common.Hash) string {
 		rs, _, _, perr = core.NewStateProcessor(n.cfg, n.bc, n.bc.Engine()).Process(b, sdb, vm.Config{})
 	})
 	if pan || perr != nil {
+		lastProcessErr = fmt.Sprint(pan, perr)
 		return "err"
 	}
 	root := sdb.IntermediateRoot(n.cfg.IsEIP158(b.Number()))
 	return "ok " + vh.Hex(root[:]) + " " + receiptsReq(rs, true)
 }
+
+var lastProcessErr string
 
 func importReq(n *node, b *types.Block, parentRoot common.Hash) string {
 	hdr, _ := rlp.EncodeToBytes(b.Header())
@@ -1031,11 +1041,21 @@ func receiptsDigest(rs types.Receipts) string {
 }
 
 func partCorruption(c *vh.Ctx, m *vh.Model, ch *chainT, idx int, cache *core.CacheConfig, cacheName string) {
-	n := newNode(c, ch, cache)
-	defer func() { n.bc.Stop() }()
+	n := newNode(c, ch, cache)     // is offered every single-field corruption
+	clean := newNode(c, ch, cache) // never sees a bad block
+	n2 := newNode(c, ch, cache)    // receives the variants with re-derived body roots (may be valid blocks)
+	defer func() { n.bc.Stop(); clean.bc.Stop(); n2.bc.Stop() }()
+	all := make([][]corrupt, len(ch.blocks))
+	for i := range ch.blocks {
+		parent := ch.genesis
+		if i > 0 {
+			parent = ch.blocks[i-1]
+		}
+		all[i] = corruptions(c.Rng, ch, i, parent)
+	}
 	parent := ch.genesis
 	for i, b := range ch.blocks {
-		cs := corruptions(c.Rng, ch, i, parent)
+		cs := all[i]
 		// 1. single-field corruptions, before the good block arrives: must be refused, nothing may change
 		before := snapshot(n)
 		for _, cr := range cs {
@@ -1053,7 +1073,8 @@ func partCorruption(c *vh.Ctx, m *vh.Model, ch *chainT, idx int, cache *core.Cac
 				n.bc.Stop()
 				n = newNode(c, ch, cache)
 				if e := n.insert(ch.blocks[:i]); e != nil {
-					c.Fatal("cannot rebuild node: %v", e)
+					c.Violate("valid-chain-refused/rebuild", fmt.Sprintf("cannot rebuild a node up to block %d: %v", i, e), rep)
+					return
 				}
 				before = snapshot(n)
 				continue
@@ -1077,23 +1098,66 @@ func partCorruption(c *vh.Ctx, m *vh.Model, ch *chainT, idx int, cache *core.Cac
 				c.Correspond("InsertChain(corrupted)~import_block", fmt.Sprintf("%s block %d %s", ch.spec.name, i+1, cr.name), verdict, firstTwo(m.Ask(importReq(n, cr.blk, parent.Root()))))
 			}
 		}
-		// 2. the good block
+		// 2. the good block — half of the time with a corrupted successor behind it in the same batch
 		req := importReq(n, b, parent.Root())
-		if err := n.insert([]*types.Block{b}); err != nil {
-			c.Violate("valid-block-refused", fmt.Sprintf("block %d of a generated chain was refused after corrupted variants had been offered: %v", i+1, err), replayOf(ch, map[string]interface{}{"block": i + 1}))
+		batch := []*types.Block{b}
+		var tail *corrupt
+		if i+1 < len(ch.blocks) && c.Rng.Bool() {
+			var cand []int
+			for k, cr := range all[i+1] {
+				if !cr.fixed {
+					cand = append(cand, k)
+				}
+			}
+			tail = &all[i+1][cand[c.Rng.Intn(len(cand))]]
+			batch = append(batch, tail.blk)
+		}
+		err := n.insert(batch)
+		if tail == nil {
+			if err != nil {
+				c.Violate("valid-block-refused", fmt.Sprintf("block %d of a generated chain was refused after corrupted variants had been offered: %v", i+1, err), replayOf(ch, map[string]interface{}{"block": i + 1}))
+				return
+			}
+			c.Eval("import:valid-block", fmt.Sprintf("%d/%d", idx, i))
+		} else {
+			c.Eval("batch:valid-block+corrupted-successor:"+tail.name, fmt.Sprintf("%d/%d/batch/%s", idx, i, tail.name))
+			enc, _ := rlp.EncodeToBytes(tail.blk)
+			rep := replayOf(ch, map[string]interface{}{"batch": []int{i + 1, i + 2}, "corruption_of_second": tail.name, "corrupted_block_rlp": vh.Hex(enc), "cache": cacheName})
+			if err == nil {
+				c.Violate("corrupted-block-accepted-in-batch/"+tail.name, fmt.Sprintf("batch [block %d, block %d with %s]: the corrupted second block was accepted", i+1, i+2, tail.name), rep)
+				return
+			}
+			if n.bc.CurrentBlock().Hash() != b.Hash() {
+				c.Violate("failed-batch-lost-good-prefix", fmt.Sprintf("batch [block %d, corrupted block %d]: after the failure the head is not block %d", i+1, i+2, i+1), rep)
+				return
+			}
+		}
+		if err := clean.insert([]*types.Block{b}); err != nil {
+			c.Violate("valid-block-refused/clean-node", fmt.Sprintf("block %d of a generated chain was refused by a node that saw only valid blocks: %v", i+1, err), replayOf(ch, map[string]interface{}{"block": i + 1, "error": err.Error()}))
 			return
 		}
-		c.Eval("import:valid-block", fmt.Sprintf("%d/%d", idx, i))
+		// a node that was offered bad blocks must be indistinguishable from one that never saw them
+		sa, sb := snapshot(n), snapshot(clean)
+		for k, v := range sb {
+			if sa[k] != v {
+				c.Violate("bad-blocks-left-a-trace/"+k, fmt.Sprintf("after block %d, %s differs between a node that was offered corrupted blocks and a node that was not", i+1, k),
+					replayOf(ch, map[string]interface{}{"block": i + 1, "observable": k, "clean": clip(v), "offered": clip(sa[k]), "cache": cacheName}))
+			}
+		}
 		c.Correspond("InsertChain~import_block", fmt.Sprintf("%s block %d", ch.spec.name, i+1),
 			fmt.Sprintf("accepted %s %d", vh.Hex(b.Root().Bytes()), b.GasUsed()), m.Ask(req))
-		// 3. variants with re-derived body roots (may be valid different blocks): model decides; if
-		// accepted every commitment must be the recomputed one
+		// 3. variants with re-derived body roots (may be valid different blocks), on their own node: the
+		// model decides; if accepted every commitment must be the recomputed one
+		if err := n2.insert([]*types.Block{b}); err != nil {
+			c.Violate("valid-block-refused/variant-node", fmt.Sprintf("block %d of a generated chain was refused by a node that had accepted valid sibling variants: %v", i+1, err), replayOf(ch, map[string]interface{}{"block": i + 1, "error": err.Error()}))
+			return
+		}
 		for _, cr := range cs {
 			if !cr.fixed || (!c.Thorough() && c.Rng.Intn(2) == 0) {
 				continue
 			}
-			req := importReq(n, cr.blk, parent.Root())
-			err := n.insert([]*types.Block{cr.blk})
+			req := importReq(n2, cr.blk, parent.Root())
+			err := n2.insert([]*types.Block{cr.blk})
 			verdict := classify(err)
 			c.Eval("corruption:"+cr.name, fmt.Sprintf("%d/%d/%s", idx, i, cr.name))
 			enc, _ := rlp.EncodeToBytes(cr.blk)
@@ -1104,9 +1168,9 @@ func partCorruption(c *vh.Ctx, m *vh.Model, ch *chainT, idx int, cache *core.Cac
 			}
 			if err == nil {
 				// direct oracle: recompute every commitment independently
-				stored := n.bc.GetReceiptsByHash(cr.blk.Hash())
+				stored := n2.bc.GetReceiptsByHash(cr.blk.Hash())
 				h := cr.blk.Header()
-				po := strings.Fields(processOracle(n, cr.blk, parent.Root()))
+				po := strings.Fields(processOracle(n2, cr.blk, parent.Root()))
 				ok := len(po) >= 2 && po[0] == "ok" && po[1] == vh.Hex(h.Root[:]) &&
 					types.DeriveSha(stored) == h.ReceiptHash && types.CreateBloom(stored) == h.Bloom &&
 					types.DeriveSha(cr.blk.Transactions()) == h.TxHash && types.CalcUncleHash(cr.blk.Uncles()) == h.UncleHash
@@ -1131,12 +1195,7 @@ func partCorruption(c *vh.Ctx, m *vh.Model, ch *chainT, idx int, cache *core.Cac
 				c.Correspond("InsertChain(rederived-variant)~import_block", fmt.Sprintf("%s block %d %s", ch.spec.name, i+1, cr.name), verdict, ans)
 			}
 		}
-		// the canonical chain must still be the main chain (a valid sibling may have taken the head at equal TD)
 		parent = b
-	}
-	last := ch.blocks[len(ch.blocks)-1]
-	if n.bc.CurrentBlock().Hash() != last.Hash() {
-		c.Note("corruption node ended on a sibling of equal difficulty (valid re-derived variant won the tie): head %x", n.bc.CurrentBlock().Hash())
 	}
 }
 
@@ -1161,13 +1220,14 @@ func (b *backend) BlockChain() *core.BlockChain      { return b.bc }
 func (b *backend) TxPool() *core.TxPool              { return b.pool }
 func (b *backend) ChainDb() aquadb.Database          { return b.db }
 
-func partBuilder(c *vh.Ctx, m *vh.Model, ch *chainT, idx int) {
+// partBuilder builds block k+1 on top of main block k with the miner's worker
+func partBuilder(c *vh.Ctx, m *vh.Model, ch *chainT, idx int, k int) {
 	r := c.Rng
-	k := 1 + r.Intn(len(ch.blocks)-1) // build block k+1 on top of main block k
 	a := newNode(c, ch, &core.CacheConfig{Disabled: true})
 	defer func() { a.bc.Stop() }()
 	if err := a.insert(ch.blocks[:k]); err != nil {
-		c.Fatal("builder node: %v", err)
+		c.Violate("valid-chain-refused/builder-node", fmt.Sprintf("a fresh archive node refused the first %d blocks of a generated chain in one batch: %v", k, err), replayOf(ch, map[string]interface{}{"blocks": k, "error": err.Error()}))
+		return
 	}
 	if k >= 2 { // let the node know a recent side block (a possible uncle)
 		a.insert([]*types.Block{ch.side[k-1]})
@@ -1212,7 +1272,10 @@ func partBuilder(c *vh.Ctx, m *vh.Model, ch *chainT, idx int) {
 	pan, pv := vh.CatchPanic(func() {
 		blk, brs = miner.VerifBuildBlock(ch.spec.cfg, a.bc.Engine(), coinbase, []byte("c01"), &backend{a.bc, pool, a.db}, uncles)
 	})
-	class := fmt.Sprintf("builder:worker/txs=%s/uncles=%d", bucket(npend), len(uncles))
+	class := fmt.Sprintf("builder:worker/pending=%s/uncle-offered=%d", bucket(npend), len(uncles))
+	if !pan && blk != nil {
+		class = fmt.Sprintf("builder:worker/height=%d/pending=%s/included=%s/uncles=%d", k+1, bucket(npend), bucket(len(blk.Transactions())), len(blk.Uncles()))
+	}
 	if pan || blk == nil {
 		c.Eval(class, "")
 		c.Violate("builder-panics-or-fails", fmt.Sprintf("worker.commitNewWork panicked or produced no block on top of block %d: %v", k, pv), replayOf(ch, map[string]interface{}{"parent_number": k}))
@@ -1229,7 +1292,8 @@ func partBuilder(c *vh.Ctx, m *vh.Model, ch *chainT, idx int) {
 	b := newNode(c, ch, nil)
 	defer func() { b.bc.Stop() }()
 	if err := b.insert(ch.blocks[:k]); err != nil {
-		c.Fatal("second node: %v", err)
+		c.Violate("valid-chain-refused/second-node", fmt.Sprintf("a fresh pruning node refused the first %d blocks of a generated chain in one batch: %v", k, err), replayOf(ch, map[string]interface{}{"blocks": k, "error": err.Error()}))
+		return
 	}
 	if k >= 2 {
 		b.insert([]*types.Block{ch.side[k-1]})
@@ -1268,11 +1332,18 @@ func partBuilder(c *vh.Ctx, m *vh.Model, ch *chainT, idx int) {
 		c.Correspond("worker.commitNewWork~build_block", fmt.Sprintf("%s on block %d", ch.spec.name, k),
 			fmt.Sprintf("ok %s %d %d", vh.Hex(hdr), len(blk.Transactions()), sealed.GasUsed()), m.Ask(req))
 	}
-	req := importReq(b, sealed, ch.blocks[k-1].Root())
+	bparent := b.bc.GetBlockByHash(sealed.ParentHash())
+	if bparent == nil {
+		c.Fatal("second node does not know the parent of the built block")
+	}
+	req := importReq(b, sealed, bparent.Root())
 	if err := b.insert([]*types.Block{sealed}); err != nil {
 		rep["error"] = err.Error()
 		c.Violate("own-block-refused", fmt.Sprintf("a block assembled by worker.commitNewWork on block %d was refused by InsertChain of a second node: %v", k, err), rep)
 		return
+	}
+	if strings.HasSuffix(req, " err") {
+		c.Note("process oracle failed on own block: %s", lastProcessErr)
 	}
 	c.Correspond("InsertChain(own block)~import_block", fmt.Sprintf("%s own block on %d", ch.spec.name, k),
 		fmt.Sprintf("accepted %s %d", vh.Hex(sealed.Root().Bytes()), sealed.GasUsed()), m.Ask(req))
@@ -1339,18 +1410,36 @@ func main() {
 				c.Count("tx-kind:" + k)
 			}
 		}
+		t0 := time.Now()
 		partCommitments(c, m, ch)
+		t1 := time.Now()
 		partDeterminism(c, m, ch, idx)
-		partBuilder(c, m, ch, idx)
-		if c.Thorough() {
-			partBuilder(c, m, ch, idx)
-			partBuilder(c, m, ch, idx)
+		t2 := time.Now()
+		// the worker builds the block at every height where the rules change, and at a random one
+		ks := map[int]bool{1 + c.Rng.Intn(len(ch.blocks)-1): true}
+		for _, hf := range []int{4, 5, 7, 8} {
+			if h := spec.cfg.GetHF(hf); h != nil && h.Int64() >= 2 && int(h.Int64()) <= len(ch.blocks) {
+				ks[int(h.Int64())-1] = true
+			}
 		}
+		if c.Thorough() {
+			for k := 1; k < len(ch.blocks); k++ {
+				ks[k] = true
+			}
+		}
+		for k := 1; k < len(ch.blocks); k++ {
+			if ks[k] {
+				partBuilder(c, m, ch, idx, k)
+			}
+		}
+		t3 := time.Now()
+		tnote := fmt.Sprintf("chain %d timing: commitments %.1fs histories %.1fs builder %.1fs", idx, t1.Sub(t0).Seconds(), t2.Sub(t1).Seconds(), t3.Sub(t2).Seconds())
 		cache, cname := &core.CacheConfig{Disabled: true}, "archive"
 		if idx%3 == 2 {
 			cache, cname = nil, "pruning-default"
 		}
 		partCorruption(c, m, ch, idx, cache, cname)
+		c.Note("%s corruption %.1fs", tnote, time.Since(t3).Seconds())
 		if idx == 0 {
 			c.Sample(map[string]interface{}{"config": spec.name, "kinds_per_block": ch.kinds, "fork_at": ch.forkAt, "fork_len": len(ch.fork)})
 		}
